@@ -8,10 +8,11 @@ SRC=$1; ID=$2
 export GOFLAGS=-mod=mod GOPROXY=off GOSUMDB=off GOTOOLCHAIN=local
 S=$(mktemp -d /tmp/gpseed.XXXXXX)
 trap 'rm -rf "$S"' EXIT
-mkdir -p $S/clean $S/mut
-git -C /repo archive HEAD | tar -x -C $S/clean
-git -C /repo archive HEAD | tar -x -C $S/mut
-(cd $S/mut && git apply --whitespace=nowarn $SRC/patch.diff) || { echo "$ID: APPLY-FAIL"; exit 1; }
+git clone -q --shared /repo $S/clean
+git clone -q --shared /repo $S/mut
+(cd $S/mut && git apply --3way --whitespace=nowarn $SRC/patch.diff >/dev/null 2>&1 && git reset -q) || { echo "$ID: APPLY-FAIL"; exit 1; }
+# keep the patch as it applies to the current HEAD (3-way merged if the tree moved on)
+(cd $S/mut && git diff > $S/rebased.diff)
 # demo destination: lines "<file> -> <dest>"
 declare -a DEMOS
 while read -r a arrow b; do
@@ -40,7 +41,7 @@ if [ $rcm -eq 0 ]; then echo "$ID: DEMO-DOES-NOT-FAIL-WITH-MUTANT"; exit 1; fi
 if [ $rcc -ne 0 ]; then echo "$ID: DEMO-FAILS-WITHOUT-MUTANT"; tail -5 $S/demo_clean.log; exit 1; fi
 D=$V/seeded/$ID
 mkdir -p $D/demo
-cp $SRC/patch.diff $D/patch.diff
+cp $S/rebased.diff $D/patch.diff
 cp -r $SRC/demo/. $D/demo/
 python3 - "$SRC/meta.json" "$D/meta.json" "$DEMOCMD" "$(git -C /repo rev-parse --short HEAD)" <<'PY'
 import json,sys
